@@ -26,7 +26,7 @@ def floors(tier):
     k = 1 if tier == "quick" else 8
     return {"headers_judged": 2500 * k, "explicit_calls": 1200 * k, "implicit_calls": 600 * k, "expect_absent": 200 * k,
             "class:nonmatch": 300 * k, "class:escape": 300 * k, "class:empty": 200 * k, "class:extra": 100 * k, "overridden_key": 30 * k,
-            "transport:rest": 700 * k, "later_page_headers_judged": 400 * k}
+            "transport:rest": 700 * k, "later_page_headers_judged": 400 * k, "caller_metadata_lists_checked": 20 * k}
 
 
 def plan(seed, tier):
@@ -171,6 +171,11 @@ def run_case(case):
         counters[k] = counters.get(k, 0) + n
 
     sample = None
+    for tr_, after in (ev.get("caller_metadata_after") or {}).items():
+        bump("caller_metadata_lists_checked")
+        if after != [["x-verif-caller", tr_]]:
+            viol.append({"clause": "caller-metadata-mutated", "detail": {"transport": tr_, "list_after_the_run": after[:6], "entries": len(after)},
+                         "mech": {"transport": tr_}})
     for call, r in zip(calls, ev["results"]):
         exp = call["expected"]
         for tr in ("grpc", "aio", "rest"):
@@ -272,6 +277,9 @@ def in_runner(script):
     http = rt.HttpServer()
     results = [{"grpc": None, "aio": None, "rest": None} for _ in script["calls"]]
     gc, rc = {}, {}
+    # the caller's own metadata: ONE mutable list per transport, handed to every call of the run (an application constant);
+    # the client must neither change it nor let one call's routing header travel with the next
+    caller_md = {k: [("x-verif-caller", k)] for k in ("grpc", "aio", "rest")}
 
     def md_values(evs):
         out = []
@@ -290,9 +298,9 @@ def in_runner(script):
         try:
             if call.get("pages"):
                 srv.script(call["path"], [{"payloads": [pg["pb"]]} for pg in call["pages"]])
-                o["items"] = len(list(getattr(gc[svc], call["method"])(request=req)))
+                o["items"] = len(list(getattr(gc[svc], call["method"])(request=req, metadata=caller_md["grpc"])))
             else:
-                getattr(gc[svc], call["method"])(request=req)
+                getattr(gc[svc], call["method"])(request=req, metadata=caller_md["grpc"])
         except BaseException as e:  # noqa
             o["error"] = rt.exc_info(e)
         o["headers"] = md_values(srv.since(mark))
@@ -305,9 +313,9 @@ def in_runner(script):
                 if call.get("pages"):
                     import json as _json
                     http.script([{"body": _json.dumps(pg["json"])} for pg in call["pages"]])
-                    o["items"] = len(list(getattr(rc[svc], call["method"])(request=lib.mk(call["req_type"], rt.unb64(call["request"])))))
+                    o["items"] = len(list(getattr(rc[svc], call["method"])(request=lib.mk(call["req_type"], rt.unb64(call["request"])), metadata=caller_md["rest"])))
                 else:
-                    getattr(rc[svc], call["method"])(request=lib.mk(call["req_type"], rt.unb64(call["request"])))
+                    getattr(rc[svc], call["method"])(request=lib.mk(call["req_type"], rt.unb64(call["request"])), metadata=caller_md["rest"])
             except BaseException as e:  # noqa
                 o["error"] = rt.exc_info(e)
             hs = []
@@ -328,13 +336,13 @@ def in_runner(script):
             try:
                 if call.get("pages"):
                     srv.script(call["path"], [{"payloads": [pg["pb"]]} for pg in call["pages"]])
-                    pager = await getattr(ac[svc], call["method"])(request=lib.mk(call["req_type"], rt.unb64(call["request"])))
+                    pager = await getattr(ac[svc], call["method"])(request=lib.mk(call["req_type"], rt.unb64(call["request"])), metadata=caller_md["aio"])
                     n = 0
                     async for _ in pager:
                         n += 1
                     o["items"] = n
                 else:
-                    await getattr(ac[svc], call["method"])(request=lib.mk(call["req_type"], rt.unb64(call["request"])))
+                    await getattr(ac[svc], call["method"])(request=lib.mk(call["req_type"], rt.unb64(call["request"])), metadata=caller_md["aio"])
             except BaseException as e:  # noqa
                 o["error"] = rt.exc_info(e)
             o["headers"] = md_values(srv.since(mark))
@@ -343,4 +351,4 @@ def in_runner(script):
 
     asyncio.run(amain())
     srv.stop()
-    return {"results": results}
+    return {"results": results, "caller_metadata_after": {k: [list(x) for x in v] for k, v in caller_md.items()}}
